@@ -312,7 +312,7 @@ pub struct KnownFinding {
 }
 
 pub fn load_known_findings() -> Vec<KnownFinding> {
-    let path = format!("{VERIF_DIR}/known_findings.jsonl");
+    let path = format!("{}/known_findings.jsonl", verif_dir());
     let Ok(text) = std::fs::read_to_string(path) else {
         return vec![];
     };
@@ -339,7 +339,7 @@ pub struct CheckArgs {
 }
 
 fn write_replay(v: &Violation, engine: &dyn Engine) -> String {
-    let dir = format!("{VERIF_DIR}/replays/{}", v.property);
+    let dir = format!("{}/replays/{}", verif_dir(), v.property);
     let _ = std::fs::create_dir_all(&dir);
     let path = format!(
         "{dir}/{}-{:016x}-{:08x}.json",
@@ -641,8 +641,8 @@ pub fn check_main(engine: &'static dyn Engine, args: CheckArgs) -> i32 {
         "wall_s": wall_s,
         "violations": unknown_signatures,
     });
-    let _ = std::fs::create_dir_all(format!("{VERIF_DIR}/evidence"));
-    let epath = format!("{VERIF_DIR}/evidence/{prop}.json");
+    let _ = std::fs::create_dir_all(format!("{}/evidence", verif_dir()));
+    let epath = format!("{}/evidence/{prop}.json", verif_dir());
     if let Err(e) = std::fs::write(&epath, serde_json::to_string_pretty(&evidence).unwrap()) {
         harness_errors.push(format!("cannot write {epath}: {e}"));
     }
